@@ -11,6 +11,7 @@
 #include <netinet/in.h>
 #include <errno.h>
 #include <stdint.h>
+#include <dlfcn.h>
 #include "vtrace.h"
 #if defined (__SANITIZE_ADDRESS__)
 #include <sanitizer/lsan_interface.h>
@@ -301,6 +302,11 @@ static void prog_thread (void) {
 static void prog_loader (void) {
 	PLibraryLoader *l; pchar *e;
 	B ("p_library_loader_new"); l = p_library_loader_new ("/lib/x86_64-linux-gnu/libm.so.6"); E (l != NULL, 1, 1);
+	/* a library nobody else in the process uses: after a failed or finished load it is not resident any more (RTLD_NOLOAD finds nothing) */
+	{ static const char *P2 = "/lib/x86_64-linux-gnu/libBrokenLocale.so.1"; PLibraryLoader *l2; void *h; int gone;
+	  B ("p_library_loader_new"); l2 = p_library_loader_new (P2);
+	  if (l2) { E (1, 1, 1); B ("p_library_loader_free"); p_library_loader_free (l2); l2 = NULL; h = dlopen (P2, RTLD_NOLOAD | RTLD_LAZY); gone = h == NULL; if (h) { dlclose (h); dlclose (h); } E (1, gone, 1); }
+	  else { h = dlopen (P2, RTLD_NOLOAD | RTLD_LAZY); gone = h == NULL; if (h) { dlclose (h); dlclose (h); } E (0, gone, 1); } }
 	if (l) { B ("p_library_loader_get_symbol"); E (p_library_loader_get_symbol (l, "cos") != NULL, 1, 1);
 		 B ("p_library_loader_get_symbol"); ED (p_library_loader_get_symbol (l, "no_such_symbol_") == NULL, 1, 1);
 		 B ("p_library_loader_get_last_error"); e = p_library_loader_get_last_error (l); ED (1, 1, 1); p_free (e);
